@@ -157,7 +157,7 @@ class Ctx(object):
                                             max_cases_per_form=max_cases_per_form)
         ph = self.phases[-1]
         ph.update({"replayed_l2_numba": stats["n"], "replay_ok": stats["ok"], "forms_compiled": stats["compiled_forms"],
-                   "forms_total": stats["forms_total"], "refcount_checked": stats["refcount_checked"],
+                   "forms_total": stats["forms_total"], "refcount_checked": stats["refcount_checked"], "setitem_histories_checked": stats.get("setitem_checked", 0),
                    "expected_errors": stats["err_expected"], "unspecified_skipped": stats["unspec"]})
         self.replayed += stats["n"]
         self._take_samples(r.cases_path)
